@@ -2,6 +2,7 @@ import Cvise.Proofs.BinaryGenEq
 import Cvise.Proofs.BinaryMonotone
 import Cvise.Proofs.BinaryNoSingle
 import Cvise.Proofs.BinaryTerm
+import Cvise.Proofs.BinaryVariants
 /-!
 # C06 — delta-debugging passes are complete
 
@@ -88,5 +89,102 @@ theorem monotone_exact_total [DecidableEq α] (items R : List α) (hn : items.No
 
 -- non-vacuity: a concrete run with accepts and rejects
 example : start (reqTest [1, 3]) (startFuel 5) [0, 1, 2, 3, 4] = some [1, 3] := by decide
+
+/-! ## gcda: `advance_on_success` restarts the search on what is left (`Model/BinaryVariants.lean`) -/
+
+/-- every state of a gcda run satisfies the cursor invariant (and the chunk never exceeds what is left) … -/
+theorem gcda_invariant (test : List α → Bool) (l : List α) (h : l.length ≠ 0) :
+    (⟨l, ⟨0, l.length, l.length⟩⟩ : St α).GInv ∧
+    ∀ x y : St α, x.GInv → gcdaStep test x = .inl y → y.GInv :=
+  ⟨fresh_GInv l h, fun x y hx hs => gcdaStep_inv test x y hx hs⟩
+
+/-- … hence every requested range is non-empty and inside the current instance list -/
+theorem gcda_visit_in_range (x : St α) (h : x.GInv) :
+    x.st.index < x.st.end_ ∧ x.st.end_ ≤ x.items.length ∧ x.st.instances = x.items.length :=
+  visit_in_range x h.1
+
+/-- a gcda run ends only at granularity 1, or because nothing is left -/
+theorem gcda_finishes_at_single (test : List α → Bool) (x : St α) (r : List α) (h : x.GInv)
+    (hs : gcdaStep test x = .inr r) : x.st.chunk = 1 ∨ r = [] := by
+  by_cases ht : test x.cand = true
+  · simp only [gcdaStep, ht, if_true] at hs
+    split at hs
+    · cases hs
+    · rename_i hc; cases hs; right; exact List.eq_nil_of_length_eq_zero (create_none hc)
+  · have ht' : test x.cand = false := by simpa using ht
+    rw [gcdaStep_reject test x ht'] at hs
+    exact finishes_at_single test x r h.1 hs
+
+/-- a completed gcda run always exists (C03 for this pass: at most `(n+1)·(2n²+4n+1)+1` candidates) -/
+theorem gcda_completes (test : List α → Bool) (l : List α) :
+    ∃ r, gcdaStart test (gcdaFuel l.length) l = some r := gcdaStart_completes test l
+
+theorem gcda_no_accept_no_single (test : List α → Bool) (l : List α) (fuel : Nat) (r : List α)
+    (h : gcdaStart test fuel l = some r) (hlen : r.length = l.length) :
+    ∀ j, j < l.length → test (l.eraseIdx j) = false :=
+  Cvise.gcda_no_accept_no_single test l fuel r h hlen
+
+theorem gcda_monotone_exact [DecidableEq α] (items R : List α) (hn : items.Nodup) (hR : ∀ r ∈ R, r ∈ items)
+    (fuel : Nat) (r : List α) (h : gcdaStart (reqTest R) fuel items = some r) :
+    r = items.filter (fun a => decide (a ∈ R)) :=
+  Cvise.gcda_monotone_exact items R hn hR fuel r h
+
+theorem gcda_monotone_exact_total [DecidableEq α] (items R : List α) (hn : items.Nodup) (hR : ∀ r ∈ R, r ∈ items) :
+    gcdaStart (reqTest R) (gcdaFuel items.length) items = some (items.filter (fun a => decide (a ∈ R))) := by
+  obtain ⟨r, hr⟩ := gcdaStart_completes (reqTest R) items
+  rw [hr, Cvise.gcda_monotone_exact items R hn hR _ r hr]
+
+/-- the traced run the model driver prints is this run -/
+theorem gcda_trace_is_run (test : List α → Bool) (fuel : Nat) (l : List α) :
+    (gcdaStartTrace test fuel l).map (·.1) = gcdaStart test fuel l := gcdaStartTrace_fst test fuel l
+
+example : gcdaStart (reqTest [1, 3]) (gcdaFuel 5) [0, 1, 2, 3, 4] = some [1, 3] := by decide
+
+/-! ## ifs: the cursor carries the value the directives are replaced with; the test may depend on it -/
+
+theorem ifs_invariant (test : List α → Bool → Bool) (x y : IfSt α) (h : x.base.Inv)
+    (hs : ifsStep test x = .inl y) : y.base.Inv := ifsStep_inv test x y h hs
+
+theorem ifs_visit_in_range (x : IfSt α) (h : x.base.Inv) :
+    x.base.st.index < x.base.st.end_ ∧ x.base.st.end_ ≤ x.base.items.length ∧
+    x.base.st.instances = x.base.items.length := visit_in_range x.base h
+
+/-- a completed ifs run always exists (at most `2·(2n²+4n+1)+2` candidates) -/
+theorem ifs_completes (test : List α → Bool → Bool) (l : List α) :
+    ∃ r, ifsStart test (ifsFuel l.length) l = some r := ifsStart_completes test l
+
+/-- nothing accepted ⇒ no single `#if` can be resolved, neither to 0 nor to 1 (any test, value-sensitive or not);
+    an accepted candidate never leaves the *value* behind in a state that skips one: only the all-reject run is claimed
+    here, see `ifs_sticky_value` for what happens after an accept -/
+theorem ifs_no_accept_no_single (test : List α → Bool → Bool) (l : List α) (fuel : Nat) (r : List α)
+    (h : ifsStart test fuel l = some r) (hlen : r.length = l.length) :
+    ∀ j, j < l.length → ∀ v, test (l.eraseIdx j) v = false :=
+  Cvise.ifs_no_accept_no_single test l fuel r h hlen
+
+/-- monotone test (interesting iff the required directives are retained, whatever the value): exactly the required subset -/
+theorem ifs_monotone_exact [DecidableEq α] (items R : List α) (hn : items.Nodup) (hR : ∀ r ∈ R, r ∈ items)
+    (fuel : Nat) (r : List α) (h : ifsStart (fun l _ => reqTest R l) fuel items = some r) :
+    r = items.filter (fun a => decide (a ∈ R)) :=
+  Cvise.ifs_monotone_exact items R hn hR fuel r h
+
+theorem ifs_monotone_exact_total [DecidableEq α] (items R : List α) (hn : items.Nodup) (hR : ∀ r ∈ R, r ∈ items) :
+    ifsStart (fun l _ => reqTest R l) (ifsFuel items.length) items = some (items.filter (fun a => decide (a ∈ R))) := by
+  obtain ⟨r, hr⟩ := ifsStart_completes (fun l _ => reqTest R l) items
+  rw [hr, Cvise.ifs_monotone_exact items R hn hR _ r hr]
+
+theorem ifs_trace_is_run (test : List α → Bool → Bool) (fuel : Nat) (l : List α) :
+    (ifsStartTrace test fuel l).map (·.1) = ifsStart test fuel l := ifsStartTrace_fst test fuel l
+
+/-- what the property does *not* promise, and the code does not deliver (observed by a sub-agent, DESIGN 10.6): with a
+    value-sensitive test the value stays 1 across an accepted removal, so `#if 0` is never tried for the instance that
+    slides into the range.  Three directives; 0 resolvable only to 1, 1 only to 0, 2 not at all: the run ends with
+    directive 1 still there although resolving it to 0 alone is interesting. -/
+def stickyTest (l : List Nat) (v : Bool) : Bool :=
+  l.contains 2 && ((!l.contains 0 && l.contains 1 && v) || (l.contains 0 && !l.contains 1 && !v) || (!l.contains 0 && !l.contains 1 && !v) )
+
+theorem ifs_sticky_value :
+    ifsStart stickyTest (ifsFuel 3) [0, 1, 2] = some [1, 2] ∧ stickyTest ([1, 2].eraseIdx 0) false = true := by decide
+
+example : ifsStart (fun l _ => reqTest [1, 3] l) (ifsFuel 5) [0, 1, 2, 3, 4] = some [1, 3] := by decide
 
 end Cvise.C06
